@@ -484,7 +484,7 @@ let ghost ss = block.sp_statements(); let ghost k = ss.len() - oq3_it1.rest().le
 proof { if k < ss.len() { assert(ss.take(k + 1).drop_last() =~= ss.take(k)); assert(ss.take(k + 1).last() == ss[k as int]); assert(oq3_it1.rest()[0] == ss[k as int]); } else { assert(ss.take(k as int) =~= ss); } }''')
     zov['block_expr_to_asg_type'].update(ret='r', spec=NONGLOBAL + 'ensures grows(*old(context), *final(context)),\n    ' + DECLS % ('block_synast', 'block_synast')
              + '\n    block_ok(block_synast.sp_statements(), r.statements@),     //@C06:block-holds-the-translations-of-its-statements-in-order')
-    zov['block_or_stmt_to_asg_type'].update(spec=NONGLOBAL + 'ensures grows(*old(context), *final(context)),')
+    zov['block_or_stmt_to_asg_type'].update(ret='r', spec=NONGLOBAL + 'ensures grows(*old(context), *final(context)),\n    bors_ok(val, r),     //@C06:body-holds-the-translations-of-its-statements')
     zov['bind_parameter_list'].update(ret='r', props=['C09', 'C07', 'C03'], loops={1: ITER('oq3_it1', '''
     oq3_v1@.len() + oq3_it1.rest().len() == param_list.sp_params().len(),
     oq3_it1.rest() =~= param_list.sp_params().skip(oq3_v1@.len() as int),
@@ -512,7 +512,8 @@ ensures grows(*old(context), *final(context)),
     unsupported_stmt(stmt) ==> final(context).errs() == old(context).errs().push(SemanticErrorKind::NotImplementedError),     //@C03:unsupported-statement-reported
     // a declaration that bound nothing (a redeclaration) is marked as such in the graph, and only then
     (r is Some && declared_symbol(r->Some_0) is Some) ==> ((final(context).scopes() == old(context).scopes()) <==> declared_symbol(r->Some_0)->Some_0 is Err),     //@C07:redeclaration-marked-in-the-graph
-    decl_bound(*final(context), stmt),                                                                //@C07:declarations-bind-in-the-scope-of-their-block''')
+    decl_bound(*final(context), stmt),                                                                //@C07:declarations-bind-in-the-scope-of-their-block
+    bodies_ok(stmt, r),                                                                               //@C06,C05:bodies-attached-in-their-roles''')
     zov['expr_stmt_to_asg_stmt'].update(ret='r', props=['C03', 'C06', 'C07', 'C13'], loops={1: ITER_NB('oq3_it1', '''
     oq3_v1@.len() + oq3_it1.rest().len() == mod_gate_call.sp_modifiers().len(),
     oq3_it1.rest() =~= mod_gate_call.sp_modifiers().skip(oq3_v1@.len() as int),
@@ -541,9 +542,7 @@ ensures grows(*old(context), *final(context)),
         ('let params = bind_typed_parameter_list(', 'before', 'proof { assert(context.errs() == old(context).errs() + cond1(!old(context).global(), SemanticErrorKind::NotInGlobalScopeError)); }     //@C13:subroutine-definition-outside-global-scope'),
         ('            let duration =\n                expr_to_asg_texpr(delay_stmt.designator().unwrap().expr(), context).unwrap();', 'after', 'let ghost midd = *context;'),
         ('            Some(asg::Stmt::Delay(asg::DelayStmt::new(', 'before', 'proof { assert(context.errs() == midd.errs() + cond1(!(duration.ty is Duration), SemanticErrorKind::IncompatibleTypesError)); }     //@C13:non-duration-delay-reported'),
-        # ---- C06: an `else` that is written is an else branch of the graph (also an empty one), and only then
-        ('Some(asg::If::new(condition.unwrap(), then_branch, else_branch).to_stmt())', 'before',
-         'proof { assert((else_branch is Some) == (if_stmt.sp_false_body_block_or_stmt() is Some)); }     //@C06:else-branch-iff-written'),
+        # (C06: branches / loop bodies in their roles, else branch iff written: postcondition bodies_ok)
         # ---- C07: a declaration that bound nothing is marked in the graph
         ('context.new_binding(name_str.as_ref(), &typ, &q_decl);', 'after', RM_('symbol_id', 'name_str@')),
         ('Some(asg::GateDefinition::new(gate_name_symbol_id, params, qubits, block).to_stmt())', 'before', RM_('gate_name_symbol_id', 'gate.sp_name()->Some_0.sp_string()')),
